@@ -196,7 +196,70 @@ class Harness:
         self.obligations.append(rec)
         return rec
 
-    def robust_model(self, out_or_st, tolerant_claim):
+    def within_side_conditions(self, out_or_st, claim, wd):
+        """is the claim also violated where every recorded side condition (no division by zero, no overflow, ...) holds?
+        -> ('sat', model) | ('unsat', None) | ('unknown', None).  The side conditions are separate obligations of the
+        same path, so a claim that fails only where one of them fails is reported there and not twice."""
+        st = out_or_st.st if isinstance(out_or_st, Outcome) else out_or_st
+        s = z3.Solver()
+        s.set("timeout", self.timeout_ms)
+        for _, a in self.assumptions:
+            s.add(a)
+        for c in st.pc:
+            s.add(c)
+        for c in wd:
+            s.add(c)
+        s.add(z3.Not(claim))
+        t = time.time()
+        r = s.check()
+        self.solver_time += time.time() - t
+        if r == z3.sat:
+            m = s.model()
+            pref = getattr(self.eng, "replay_prefs", [])
+            if pref:
+                s.push()
+                for c in pref:
+                    s.add(c)
+                if s.check() == z3.sat:
+                    m = s.model()
+                s.pop()
+            return "sat", m
+        return ("unsat" if r == z3.unsat else "unknown"), None
+
+    def alt_models(self, out_or_st, negated, extra, prev, rnd, tries=8):
+        """other models of the same violation (same path, same negated claim), moved away from `prev` by random pins:
+        used when a witness does not reproduce on the real build because it sits on a rounding-sensitive boundary"""
+        st = out_or_st.st if isinstance(out_or_st, Outcome) else out_or_st
+        s = z3.Solver()
+        s.set("timeout", min(self.timeout_ms, 10000))
+        for _, a in self.assumptions:
+            s.add(a)
+        for c in st.pc:
+            s.add(c)
+        for c in extra:
+            s.add(c)
+        s.add(negated)
+        reals = [(n, v) for n, v in self.syms.items() if v.sort().kind() == z3.Z3_REAL_SORT and isinstance(prev.get(n), (int, float)) and prev.get(n) != 0]
+        for _ in range(tries):
+            if not reals:
+                return
+            pins = []
+            for (n, v) in rnd.sample(reals, min(len(reals), rnd.randint(1, 3))):
+                pv = prev[n]
+                f = rnd.choice([1.07, 1.31, 1.9, 0.93, 0.71, 0.45])
+                pins.append(v == z3.RealVal(repr(round(pv * f, 6))))
+            s.push()
+            for p_ in pins:
+                s.add(p_)
+            t = time.time()
+            r = s.check()
+            self.solver_time += time.time() - t
+            m = s.model() if r == z3.sat else None
+            s.pop()
+            if m is not None:
+                yield m
+
+    def robust_model(self, out_or_st, tolerant_claim, extra=()):
         """a model that violates the claim by a margin (and, if possible, with contract results pinned); or None"""
         st = out_or_st.st if isinstance(out_or_st, Outcome) else out_or_st
         s = z3.Solver()
@@ -204,6 +267,8 @@ class Harness:
         for _, a in self.assumptions:
             s.add(a)
         for c in st.pc:
+            s.add(c)
+        for c in extra:
             s.add(c)
         s.add(z3.Not(tolerant_claim))
         t = time.time()
